@@ -223,6 +223,8 @@ pub fn check_case(c: &Case, acc: &mut Acc) -> CaseResult {
     let mut dummy = 0u64;
     let state = TypeCheckerState::empty();
     let mut passes = subj::tc_config(true).lifting_passes;
+    // transformed values are kept alive until the end: the seen-set is keyed by address
+    let mut keep: Vec<RuntimeBoxedVal> = vec![];
     for v in all.iter().take(400) {
         let folded = match guard(|| v.constant_fold()) {
             Ok(f) => f,
@@ -235,6 +237,7 @@ pub fn check_case(c: &Case, acc: &mut Acc) -> CaseResult {
         if let Some((sig, d)) = audit(&folded, None, &mut seen2, &mut dummy, "after constant folding") {
             return fail(sig, d);
         }
+        keep.push(folded);
         let lifted = match guard(|| passes.run(v.clone(), &state)) {
             Ok(Ok(l)) => l,
             Ok(Err(_)) => continue,
@@ -247,6 +250,7 @@ pub fn check_case(c: &Case, acc: &mut Acc) -> CaseResult {
         if let Some((sig, d)) = audit(&lifted, None, &mut seen2, &mut dummy, "after lifting") {
             return fail(sig, d);
         }
+        keep.push(lifted);
     }
     CaseResult::Pass
 }
